@@ -54,6 +54,8 @@ def char_origin(n, charvars):
             src = s["c"][0]
             if s.get("ck") == "LValueToRValue" and src.get("tc") in ("char", "schar"):
                 return ("char", "load of " + render(src), "expr:" + render(strip_noop(src)))
+            if s.get("ck") == "LValueToRValue" and src.get("tc") == "u8":
+                return ("uchar", "load of unsigned char " + render(src), "expr:" + render(strip_noop(src)))
             s = src
             continue
         if k == "BinaryOperator" and s["op"] == "&":
